@@ -1,6 +1,6 @@
 (* C07 — Pagination returns every matching relationship exactly once. *)
 From Coq Require Import List Bool NArith ZArith Permutation.
-From Keto Require Import Base.Bytes Store.Sql Store.SqlProofs Store.PagingProofs.
+From Keto Require Import Base.Bytes Store.Sql Store.SqlProofs Store.PagingProofs Store.PagingStable.
 Import ListNotations.
 
 (* following next_page_token from the first page until it is empty: the pages concatenate to the
@@ -31,3 +31,18 @@ Theorem C07_negative_size : forall nid q size tok d, (size < 0)%Z -> GetRelation
 Proof. exact get_negative_size. Qed.
 Theorem C07_default_page_size_positive : 1 <= defaultPageSize.
 Proof. exact page_size_pos. Qed.
+
+(* STABILITY UNDER WRITES: every page is fetched from the table as it is at that moment (ds = the snapshots, any
+   inserts and deletes in between).  No row id is ever returned twice, and every matching row that is present in
+   all snapshots is returned: exactly once. *)
+Theorem C07_stable_under_writes : forall nid q size, (0 <= size)%Z -> forall ds pages,
+  (forall d, In d ds -> NoDup (map r_shard (rows d))) ->
+  iterate_seq ds nid q size TokEmpty = Some pages ->
+  NoDup (map r_shard (concat pages)) /\
+  forall r, (0 < r_shard r)%N -> (forall d, In d ds -> In r (matching nid q d)) -> In r (concat pages).
+Proof. exact stable_rows_exactly_once. Qed.
+Theorem C07_ids_strictly_increase : forall nid q size, (0 <= size)%Z -> forall ds tok pages,
+  (forall d, In d ds -> NoDup (map r_shard (rows d))) -> tok <> TokMalformed ->
+  iterate_seq ds nid q size tok = Some pages ->
+  ssorted (concat pages) /\ forall r, In r (concat pages) -> (tok_last tok < r_shard r)%N.
+Proof. exact pages_strictly_increasing. Qed.
